@@ -234,7 +234,15 @@ class Walker:
                             L = path.refs[al]
                             old = path.env.get(L, ("param", L) if 1 <= L <= self.b.argc else ("local", L))
                             others = tuple(x for j, x in enumerate(args) if j != ai)
-                            path.env[L] = clip(("op", "mut:" + (name or "?").split("::")[-1], (old,) + others))
+                            if old[0] == "op" and old[1] == "mut":
+                                base, prev = old[2][0], old[2][1:]
+                            else:
+                                base, prev = old, ()
+                            merged = list(prev)
+                            for x in others:
+                                if x not in merged and len(merged) < 16:
+                                    merged.append(x)
+                            path.env[L] = clip(("op", "mut", (base,) + tuple(merged)))
                     dp = t["dest"]
                     if not dp["p"]:
                         path.env[dp["l"]] = clip(val)
